@@ -18,6 +18,12 @@
 (*       reading of the logged objects disagrees with the driver's independent reading: tool error) *)
 EXTENDS Editing, Json, IOUtils
 
+\* TLC orders record fields by the order in which their names are first met while parsing, starting with this
+\* (root) module.  Editing compares objects of different kinds ([k, v], [k, n], [k, d, c, z], ...): the kind field
+\* k must be compared before the payload fields, so that values of different kinds never compare payloads of
+\* different types (which TLC refuses to evaluate).  Keep this first mention of the object fields here.
+KindFirst_Trace_Editing(o) == <<o.k, o.n, o.v, o.d, o.c, o.z>>
+
 Recs == ndJsonDeserialize(IOEnv.TRACE)
 
 VARIABLES l, doc, aux, gh, live
